@@ -31,6 +31,9 @@ pub struct PStmt
     /// syntactic context the statement is placed in (index into CONTEXTS9)
     #[serde(default)]
     pub context: u8,
+    /// carry a `ref` key-value whose value is not an integer literal (`ref = n`): Breadlog must leave it alone
+    #[serde(default)]
+    pub unusable_ref: bool,
 }
 
 /// (text before, text after): every context executes the statement exactly once
@@ -99,6 +102,7 @@ const PIECES: &[(&str, &str)] = &[
     ("\\n", ""),
     ("{}", "p"),
     ("{x}", "x = n * 2"),
+    ("\\\n            continued", ""),
 ];
 const GAPS9: &[&str] = &["", " ", "\n        ", " /* c */ ", " // c\n        ", "  "];
 
@@ -107,9 +111,9 @@ fn pstmt() -> BoxedStrategy<PStmt>
     (
         (0u8..5, any::<bool>(), proptest::option::weighted(0.35, 0u8..4), vec(0u8..KVS.len() as u8, 0..=3)),
         (proptest::option::weighted(0.2, 1u32..5000), vec(0u8..PIECES.len() as u8, 0..6), vec(0u8..GAPS9.len() as u8, 1..6)),
-        (prop_oneof![8 => Just(0u8), 1 => Just(1u8), 1 => Just(2u8)], any::<bool>(), prop_oneof![3 => Just(0u8), 2 => 1u8..CONTEXTS9.len() as u8]),
+        (prop_oneof![8 => Just(0u8), 1 => Just(1u8), 1 => Just(2u8)], any::<bool>(), prop_oneof![3 => Just(0u8), 2 => 1u8..CONTEXTS9.len() as u8], prop_oneof![9 => Just(false), 1 => Just(true)]),
     )
-        .prop_map(|((level, qualified, target, kvs), (existing_ref, pieces, gaps), (directive, trailing_comma, context))| PStmt {
+        .prop_map(|((level, qualified, target, kvs), (existing_ref, pieces, gaps), (directive, trailing_comma, context, unusable_ref))| PStmt {
             level,
             qualified,
             target,
@@ -120,6 +124,7 @@ fn pstmt() -> BoxedStrategy<PStmt>
             directive,
             trailing_comma,
             context,
+            unusable_ref,
         })
         .boxed()
 }
@@ -181,7 +186,13 @@ fn render(p: &Program) -> RenderedProg
             }
         }
         let mut kv_texts: Vec<String> = pairs.iter().map(|x| x.0.to_string()).collect();
-        if let (true, Some(r)) = (p.structured && s.directive != 2, s.existing_ref)
+        if s.unusable_ref
+        {
+            // a key named ref whose value is a variable: valid log usage, "unusable" for Breadlog
+            let pos = (s.level as usize) % (kv_texts.len() + 1);
+            kv_texts.insert(pos, "ref = n".to_string());
+        }
+        else if let (true, Some(r)) = (p.structured && s.directive != 2, s.existing_ref)
         {
             let pos = (r as usize) % (kv_texts.len() + 1);
             kv_texts.insert(pos, format!("ref = {}", r));
@@ -197,6 +208,11 @@ fn render(p: &Program) -> RenderedProg
         if let (true, Some(r)) = (!p.structured || s.directive == 2, s.existing_ref)
         {
             body.push_str(&format!("[ref: {}] ", r));
+        }
+        if s.pieces.first().map(|x| PIECES[*x as usize % PIECES.len()].0.starts_with("\\\n")).unwrap_or(false)
+        {
+            // the literal OPENS with a line continuation
+            body.push_str("\\\n            ");
         }
         body.push_str(&format!("s{} ", idx));
         let mut args: Vec<&str> = Vec::new();
